@@ -1,1 +1,4 @@
 // hook file for ntp-proto/src/algorithm/kalman/select.rs: declares the per-property harness modules
+#[cfg(any(verif_all, verif_c03))]
+#[path = "/verif/harness/ntp-proto/c03.rs"]
+mod c03;
